@@ -628,6 +628,63 @@ struct SeedSpace {
     versions: Vec<(&'static str, M2Version, u32)>,
     records: Vec<usize>,
     keys: Vec<usize>,
+    /// second block of the space (behind the product above): sections with key-less records
+    /// next to sections that carry key frames
+    mixed: Vec<Mixed>,
+}
+#[derive(Clone)]
+struct Mixed {
+    keyless: Vec<&'static str>,
+    keyed: Vec<&'static str>,
+    n_keyless: usize,
+    n_keyed: usize,
+    keys: usize,
+    version: usize,
+}
+fn enum_mixed(tier: Tier, n_versions: usize) -> Vec<Mixed> {
+    let t = emit::TRACKED;
+    // (key-less sections, keyed sections): every ordered pair of distinct sections, every section
+    // keyed alone among ten key-less ones, (thorough) every section key-less alone among ten keyed
+    let mut sets: Vec<(Vec<&'static str>, Vec<&'static str>)> = vec![];
+    for a in t {
+        for b in t {
+            if a != b {
+                sets.push((vec![a], vec![b]));
+            }
+        }
+    }
+    for b in t {
+        sets.push((t.iter().copied().filter(|x| *x != b).collect(), vec![b]));
+    }
+    if tier == Tier::Thorough {
+        for a in t {
+            sets.push((vec![a], t.iter().copied().filter(|x| *x != a).collect()));
+        }
+    }
+    // (key-less records, keyed records, keys)
+    let sizes: Vec<(usize, usize, usize)> = match tier {
+        Tier::Quick => vec![(1, 1, 1), (3, 3, 3)],
+        Tier::Thorough => {
+            let mut v = vec![];
+            for n0 in [1, 3, 5] {
+                for n1 in [1, 3] {
+                    for k in [1, 3] {
+                        v.push((n0, n1, k));
+                    }
+                }
+            }
+            v
+        }
+    };
+    let mut out = vec![];
+    for (kl, kd) in &sets {
+        for &(n0, n1, k) in &sizes {
+            for v in 0..n_versions {
+                out.push(Mixed { keyless: kl.clone(), keyed: kd.clone(), n_keyless: n0, n_keyed: n1, keys: k, version: v });
+            }
+        }
+    }
+    out
 }
 impl SeedSpace {
     fn new(tier: Tier) -> Self {
@@ -665,7 +722,11 @@ impl SeedSpace {
             // header numbers away from the canonical one (the names stay those of the expansion)
             versions.extend(gen::ALT_NUMBERS.iter().map(|(_, v, k)| (gen::VERSIONS.iter().find(|x| x.1 == *v).unwrap().0, *v, *k)));
         }
-        SeedSpace { subsets, versions, records: tier.pick(vec![1, 3], vec![1, 3, 2, 5]), keys: tier.pick(vec![1, 3, 0], vec![1, 3, 0, 2, 8]) }
+        let mixed = enum_mixed(tier, versions.len());
+        SeedSpace { subsets, versions, records: tier.pick(vec![1, 3], vec![1, 3, 2, 5]), keys: tier.pick(vec![1, 3, 0], vec![1, 3, 0, 2, 8]), mixed }
+    }
+    fn product(&self) -> u64 {
+        self.radices().iter().product()
     }
     fn radices(&self) -> [u64; 5] {
         [self.versions.len() as u64, self.records.len() as u64, self.keys.len() as u64, 3, self.subsets.len() as u64]
@@ -677,13 +738,39 @@ impl SeedSpace {
 }
 impl Space for SeedSpace {
     fn len(&self) -> u64 {
-        self.radices().iter().product()
+        self.product() + self.mixed.len() as u64
     }
     fn describe(&self, i: u64) -> Value {
+        if i >= self.product() {
+            let m = &self.mixed[(i - self.product()) as usize];
+            let mut all: Vec<&'static str> = emit::TRACKED.iter().copied().filter(|s| m.keyless.contains(s) || m.keyed.contains(s)).collect();
+            all.dedup();
+            return json!({"space": "seed", "version": self.versions[m.version].0, "header_number": self.versions[m.version].2, "tracked_sections": all, "keyed_sections": m.keyed,
+                          "keyless_records": m.n_keyless, "records": m.n_keyed, "keys": m.keys, "variant": "keyless_sections_next_to_keyed"});
+        }
         let (si, n, k, variant, v) = self.decode(i);
         json!({"space": "seed", "version": self.versions[v].0, "header_number": self.versions[v].2, "tracked_sections": self.subsets[si], "records": n, "keys": k, "variant": emit::VARIANTS[variant]})
     }
     fn run(&self, i: u64) -> CaseResult {
+        if i >= self.product() {
+            let m = &self.mixed[(i - self.product()) as usize];
+            let (_, ver, vnum) = self.versions[m.version];
+            let seed = emit::make_mixed(vnum, &m.keyless, &m.keyed, m.n_keyless, m.n_keyed, m.keys);
+            let mut r = CaseResult::new();
+            r.key = format!("seed/{i}");
+            // non-trivial: both a key-less and a keyed section are really present (embedded skin
+            // profiles exist up to header version 263 only)
+            let present = |s: &&'static str| *s != "views" || vnum <= 263;
+            r.nontrivial = m.keyless.iter().any(|s| present(s)) && m.keyed.iter().any(|s| present(s));
+            seed_case(&mut r, &seed, ver);
+            if r.outcome.is_empty() {
+                r.outcome = "held".into();
+            }
+            if !r.viols.is_empty() {
+                r.outcome.push_str("viol");
+            }
+            return r;
+        }
         let (si, n, k, variant, v) = self.decode(i);
         let mut r = CaseResult::new();
         r.key = format!("seed/{i}");
